@@ -4,7 +4,7 @@ from autobean_refactor import models
 
 CASES = {'quick': 5000, 'thorough': 100000}
 GATES = {
-    'quick': {'evaluations': 9000, 'ops_changing_tokens': 7000, 'slot_kinds_seen': 12, 'op_kinds_seen': 60, 'list_position_cells': 12,
+    'quick': {'evaluations': 8500, 'ops_changing_tokens': 7000, 'slot_kinds_seen': 12, 'op_kinds_seen': 60, 'list_position_cells': 12,
               'gap_checks': 1500, 'multi_value_at_index0_nonempty': 20, 'negative_index_ops': 150},
     'thorough': {'evaluations': 400000, 'slot_kinds_seen': 12, 'op_kinds_seen': 70},
 }
